@@ -2,7 +2,8 @@ INIT Init
 NEXT Next
 CONSTANTS
   Names = {"a", "b"}
-  MaxCost = 2
+  MaxCost = 3
   Directed = FALSE
-INVARIANTS Dbg RT GenSound
+  NestedOrFixed = FALSE
+INVARIANTS RT GenSound Census KnownRegion
 CHECK_DEADLOCK FALSE
